@@ -416,11 +416,11 @@ Mutate ==
             /\ mut' = MutRec(d, k, "close-client", "C07", [r EXCEPT !.a = "nobody"])
          \/ /\ r.r \in {"*L", "-oR", "split"} \* both binders get the same name (one linear channel is lost)
             /\ mut' = MutRec(d, k, "same-binder", "C05", [r EXCEPT !.b = r.a])
-         \/ /\ r.r \in {"+L", "dL", "*L", "split"}   \* a binder takes the name of a channel that is still owed a use
+         \/ /\ r.r \in {"+L", "dL", "*L", "split", "&R", "-oR", "uR"}   \* a binder (client- or provider-side) takes the name of a channel that is still owed a use
             /\ \E j \in 1..Len(r.live) : r.live[j].id \notin {r.a, r.b, r.c}
             /\ LET other == r.live[CHOOSE j \in 1..Len(r.live) : r.live[j].id \notin {r.a, r.b, r.c}].id IN
                mut' = MutRec(d, k, "shadow-binder", "C05",
-                             IF r.r = "+L" THEN [r EXCEPT !.b = other] ELSE [r EXCEPT !.a = other])
+                             IF r.r \in {"+L", "&R"} THEN [r EXCEPT !.b = other] ELSE [r EXCEPT !.a = other])
          \/ /\ k = 1 /\ done[d].kind = "prc" /\ ~Contr(Md(done[d].t))   \* a second provider name duplicates a non-contractable process
             /\ mut' = MutRec(d, 0, "multi-name", "C05", [names |-> done[d].names \o <<"e">>])
          \/ /\ k = 1 /\ Hd(IF done[d].kind = "prc" THEN done[d].t ELSE done[d].sig.ret).k = "unit"   \* the provider's mode is raised above a channel it uses
